@@ -386,7 +386,7 @@ impl Topology<(), ()> {
                         .expect("path_iter should exist on gates of kind: endpoint");
 
                     let mut end = gate.clone();
-                    for con in iter.take(16) {
+                    for con in iter {
                         end = con.endpoint;
                     }
 
